@@ -760,11 +760,45 @@ func vfC19ShiftExpiry(c *Checker, p vfC19Pfx, d time.Duration) (ok bool) {
 // entry takes 2+8+32n bytes: 10 for a negative one, 42 for one hash.
 var vfC19CacheSizes = []uint{0, 0, 1 << 20, 10, 20, 41, 42, 52, 62, 74, 100, 150, 300, 1000}
 
-func vfC19DrawCacheSize(t *rapid.T) (size uint) {
+// vfC19ResponseBound is the largest number of cache bytes the entries of one
+// answer can take for these hosts, whatever subset of the universe the
+// database holds.
+func vfC19ResponseBound(hosts []string, universe []vfC19Entry) (bound uint) {
+	per := map[vfC19Pfx]uint{}
+	for _, e := range universe {
+		per[e.H.pfx()] += 32
+	}
+	for _, host := range hosts {
+		seen := map[vfC19Pfx]bool{}
+		var sum uint
+		for _, c := range vfC19Candidates(host) {
+			p := c.Hash.pfx()
+			if !seen[p] {
+				seen[p] = true
+				sum += 10 + per[p]
+			}
+		}
+		if sum > bound {
+			bound = sum
+		}
+	}
+
+	return bound
+}
+
+// vfC19DrawCacheSize draws the configured cache size.  While the small-cache
+// defect is listed as an open known finding, exactly its shape is left out: the
+// cache is then always large enough for the entries of any single answer
+// (eviction between answers stays in).
+func vfC19DrawCacheSize(t *rapid.T, hosts []string, universe []vfC19Entry) (size uint) {
 	if _, open := vfkit.KnownOpen("C19", vfC19SigSmallCache); open {
 		vfC19.Excluded(vfC19SigSmallCache)
+		b := vfC19ResponseBound(hosts, universe)
+		if b < 10 {
+			b = 10
+		}
 
-		return rapid.SampledFrom([]uint{0, 1 << 20}).Draw(t, "cache_size")
+		return rapid.SampledFrom([]uint{0, 0, 1 << 20, b, b, b + 10, 2 * b}).Draw(t, "cache_size")
 	}
 
 	return rapid.SampledFrom(vfC19CacheSizes).Draw(t, "cache_size")
